@@ -48,5 +48,15 @@ func TestSweep(t *testing.T) {
 			}
 		}
 	}
+	// parents produced by a growing Append of partial frames
+	for _, tn := range names {
+		for C := 2; C <= 7; C++ {
+			for pre := 0; pre < C; pre++ {
+				for srcN := 1; srcN <= 3*C+2; srcN++ {
+					Oracle.One(t, env, rec, "sweep", &Case{T: tn, C: C, Grown: srcN, GrownPre: pre})
+				}
+			}
+		}
+	}
 	rec.Exhaustive("13 types x C<=3 x K<=3(5 thorough) x all (s,e) in [-2,K+2]^2 x all second-level (s,e) in [-2,cap+2]^2", true)
 }
